@@ -33,6 +33,30 @@ UNITS.append(dict(id="sha3_finish", harness="alg_sha3_fin.c", entry="h_finish", 
                   replace=["pp_crypto_hash_sha3_process"], canaries=3, timeout=900, cbmc_flags=["--sat-solver", "cadical"]))
 UNITS.append(dict(id="sha3_new_reset", harness="alg_sha3_fin.c", entry="h_new_reset", sources=["pcryptohash-sha3.c"], enforce=None, replace=[], timeout=600,
                   functions=["p_crypto_hash_sha3_224_new", "p_crypto_hash_sha3_256_new", "p_crypto_hash_sha3_384_new", "p_crypto_hash_sha3_512_new", "p_crypto_hash_sha3_reset"]))
+G = "pcryptohash-gost3411.c"
+GOST_LOOP = ["__CPROVER_assigns(data, len, g_consumed, g_buffered, g_blocks, g_len_adds, g_sum_adds, g_add_lo, g_add_hi, g_add_rest_zero, __CPROVER_object_upto(ctx->buf, 32), __CPROVER_object_upto(ctx->hash, 32), __CPROVER_object_upto(ctx->sum, 32))",
+             "__CPROVER_loop_invariant(len <= g_len0 && g_consumed + len == g_len0 && g_data_len == g_len0 && __CPROVER_same_object(data, g_data0) && (size_t) __CPROVER_POINTER_OFFSET(data) == g_consumed && "
+             "g_buffered == left && (len < 32 || g_buffered == 0) && g_buffered < 32 && g_blocks * 32 + g_buffered + len == g_oldb + g_len0 && g_blocks <= g_consumed / 32 + 1 && "
+             "g_sum_adds == g_blocks && g_len_adds == 1 && g_add_lo == (puint32) (g_len0 << 3) && g_add_hi == (puint32) (g_len0 >> 29) && g_add_rest_zero == 1)",
+             "__CPROVER_decreases(len)"]
+UNITS.append(dict(id="gost_sum_256", harness="alg_gost.c", entry="h_sum_256", sources=[G], enforce=None, replace=[], defines=["UNIT_SUM"], timeout=600,
+                  cbmc_flags=["--unwind", "9", "--unwinding-assertions"], bound="fixed 8-limb loops: complete, unwinding assertions on", functions=["pp_crypto_hash_gost3411_sum_256"],
+                  replay={"driver": "C11_gost_replay.c", "mode": "sum", "args": [], "sources": {"all_except": ["pcryptohash-gost3411.c"]}}))
+UNITS.append(dict(id="gost_update", harness="alg_gost.c", entry="h_update", sources=[G], enforce="p_crypto_hash_gost3411_update",
+                  replace=["pp_crypto_hash_gost3411_process", "pp_crypto_hash_gost3411_sum_256"], defines=["UNIT_UPDATE"], canaries=4, timeout=900,
+                  loops={G: {"p_crypto_hash_gost3411_update": {"nloops": 1, "0": GOST_LOOP}}},
+                  replay={"driver": "C11_replay.c", "mode": "update4g", "args": [], "fixed_args": ["alg=10"], "timeout": 600, "sanitize": "undefined"}))
+UNITS.append(dict(id="gost_finish", harness="alg_gost.c", entry="h_finish", sources=[G], enforce="p_crypto_hash_gost3411_finish",
+                  replace=["pp_crypto_hash_gost3411_process", "pp_crypto_hash_gost3411_sum_256"], defines=["UNIT_FINISH"], canaries=2, timeout=900))
+UNITS.append(dict(id="gost_reset", harness="alg_gost.c", entry="h_reset", sources=[G], enforce=None, replace=[], defines=["UNIT_FINISH"], timeout=300, functions=["p_crypto_hash_gost3411_reset"]))
 TECHNIQUE = "CBMC contracts on the real pcryptohash*.c: dispatcher history over call-log stubs; per algorithm the buffering/length/padding logic with the compression function replaced by a block-order contract"
-LEVEL_TEXT = "work in progress"
-LEVEL_NOTE = "work in progress"
+LEVEL_TEXT = ("Dispatcher (real pcryptohash.c, history over call-log stubs): standard digest length per type, right family, update forwarded whole, one finalisation between resets, "
+              "repeatable reads, updates after a read ignored until reset, lower-case hex of the raw digest, no leak. Per family (MD5, SHA-1, SHA-2 224/256, SHA-2 384/512, SHA-3 x4, GOST) on the "
+              "real source: update consumes every byte of the caller's data exactly once and in order, appends behind the pending bytes, compresses exactly full blocks (stream discipline "
+              "checked call by call in the memcpy/compression contracts => the block sequence is the chunking of pending++data, independent of how the input is split into updates), for "
+              "every pending count and every len < 2^55 including >= 2^32; the length counter grows by exactly len; finish appends the standard padding and bit length in the standard's byte "
+              "order (SHA-3: 0x06..0x80 incl. the 0x86 corner; GOST: zero padding, length block, checksum block, checksum = exact 256-bit sum); initial values and byte-order conversion "
+              "against the standards' literals. Loops closed by injected loop contracts; fixed-size loops (hex, 16-word swaps, 8-limb sums) fully unwound with unwinding assertions.")
+LEVEL_NOTE = ("ASSUMED, not proved: the compression functions (MD5/SHA round functions, Keccak-f, GOST step with the CryptoPro S-box) equal the standards' -- every installed solver fails on "
+              "that equivalence (DESIGN.md section 2); they are replaced by block-order contracts and are exercised round by round by the published vectors in pcryptohash_test. "
+              "Trusted: memcpy stream model (bytes copied faithfully), allocator model. len bounded at 2^55 by CBMC's pointer-offset width. SHA-3 update is proved per rate (4 units).")
